@@ -542,14 +542,22 @@ def run_sched(c, P):
                    sig='C11: message lost')
         cls.add('frames:%d' % len(frames))
     if 'C12' in tags:
+        # (checks that no recorded finding touches come first; the two Close-related ones are reported and passed over
+        #  when they match a recorded finding)
         closes = [i for i, o in enumerate(ops_wire) if o == 8]
+        for n, res in results.items():
+            for op, outcome, wrote in res:
+                if outcome.startswith('exception'):
+                    c.fail('C12: %s in thread %s raised %s (not a WebSocketError)' % (op, n, outcome))
+                if outcome == 'ws-error' and wrote:
+                    c.fail('C12: %s in thread %s raised a WebSocketError but had written %d byte chunks' % (op, n, wrote))
         if len(closes) > 1:
             # which thread wrote the second Close, and what did it see when it took the write lock for that write?
             who, snap = _writer_of_frame(parts, frames, closes[1])
             c.fail('C12: %d Close frames on the wire (second by %s; when it took the write lock: %s)' % (len(closes), who, snap),
                    sig='C12: two Close frames; second writer took the lock with closing=%s close_on_wire=%s close_in_progress=%s closer_at=%s'
                        % (snap and snap.get('closing'), snap and snap.get('close_on_wire'), snap and snap.get('close_in_progress'),
-                          snap and snap.get('closer_at')))
+                          snap and snap.get('closer_at')), soft=True)
         if closes:
             for j in range(closes[0] + 1, len(frames)):
                 if ops_wire[j] in (0, 1, 2):
@@ -557,13 +565,8 @@ def run_sched(c, P):
                     c.fail('C12: data frame written after the Close frame (by %s; when it took the write lock: %s)' % (who, snap),
                            sig='C12: data after Close; sender took the lock with closing=%s close_on_wire=%s close_in_progress=%s closer_at=%s'
                                % (snap and snap.get('closing'), snap and snap.get('close_on_wire'), snap and snap.get('close_in_progress'),
-                                  snap and snap.get('closer_at')))
-        for n, res in results.items():
-            for op, outcome, wrote in res:
-                if outcome.startswith('exception'):
-                    c.fail('C12: %s in thread %s raised %s (not a WebSocketError)' % (op, n, outcome))
-                if outcome == 'ws-error' and wrote:
-                    c.fail('C12: %s in thread %s raised a WebSocketError but had written %d byte chunks' % (op, n, wrote))
+                                  snap and snap.get('closer_at')), soft=True)
+                    break
         cls.add('closes:%d' % len(closes))
         cls.add('wire:' + ''.join(str(o) for o in ops_wire))
     return {'cls': sorted(cls), 'sample': {'threads': plan, 'wire_opcodes': ops_wire,
